@@ -40,7 +40,7 @@ type Variant struct {
 // Scenario is a fully materialised simulation: no PRNG state is needed to
 // re-execute it, which makes it the replay format.
 type Scenario struct {
-	// Kind: history | compare-bytes (C04) | compare-alone (C05) | universe (C13) | infl (C20)
+	// Kind: history | compare-bytes (C04) | compare-alone (C05) | compare-recovery (C02) | universe (C13) | infl (C20)
 	Kind     string      `json:"kind"`
 	Property string      `json:"property"`
 	Module   *ModuleSpec `json:"module,omitempty"`
